@@ -383,6 +383,9 @@ func (x *engRun) step(ws []string) (out string) {
 		for it.SeekToFirst(); it.Valid(); it.Next() {
 			if prev != nil && bytes.Compare(it.Key(), prev) <= 0 {
 				parts = append(parts, "ORDER-VIOLATION")
+				if len(parts) > 1000 { // an iterator stuck on one key never reaches the size guard below
+					break
+				}
 			}
 			prev = append([]byte{}, it.Key()...)
 			if it.IsTombstone() {
